@@ -101,6 +101,61 @@ fn main() {
             }
             println!("{{\"failed\":false,\"runs\":{},\"calls\":{calls},\"distinct_histories\":{}}}", to - from, distinct.len());
         }
+        Some("unsafe-decoders") => {
+            // C05, thorough tier: the decoders that contain `unsafe` (fixed-size arrays, byte vectors)
+            // on damaged input under Miri, which turns "returns uninitialised or foreign memory"
+            // into a definite verdict
+            let seed: u64 = arg(&args, "--seed").unwrap().parse().unwrap();
+            let n: usize = arg(&args, "--n").unwrap().parse().unwrap();
+            rt::RNG.store(seed ^ 0xA5A5_5A5A_1234_5678, std::sync::atomic::Ordering::Relaxed);
+            let mut outcomes = [0usize; 2];
+            for _ in 0..n {
+                // a valid encoding of one of the shapes, then damaged
+                let kind = rt::below(6);
+                let mut bytes: Vec<u8> = match kind {
+                    0 => desert::serialize_to_byte_vec(&[1u32, 2, 3]).unwrap(),
+                    1 => desert::serialize_to_byte_vec(&["a".to_string(), "bc".to_string()]).unwrap(),
+                    2 => desert::serialize_to_byte_vec(&[9u8, 8, 7, 6]).unwrap(),
+                    3 => desert::serialize_to_byte_vec(&vec![1u8, 2, 3, 4, 5]).unwrap(),
+                    4 => desert::serialize_to_byte_vec(&vec![[1u8, 2], [3, 4]]).unwrap(),
+                    _ => desert::serialize_to_byte_vec(&(vec![7u16, 8], [Some(1u8), None, Some(3)])).unwrap(),
+                };
+                for _ in 0..rt::below(3) {
+                    if bytes.is_empty() {
+                        break;
+                    }
+                    match rt::below(4) {
+                        0 => {
+                            let i = rt::below(bytes.len());
+                            bytes[i] ^= 1 << rt::below(8);
+                        }
+                        1 => {
+                            let k = rt::below(bytes.len());
+                            bytes.truncate(k);
+                        }
+                        2 => {
+                            let i = rt::below(bytes.len());
+                            bytes[i] = [0u8, 1, 2, 3, 0xff, 0x7f, 0x80][rt::below(7)];
+                        }
+                        _ => {
+                            let i = rt::below(bytes.len());
+                            let b = bytes[i];
+                            bytes.insert(i, b);
+                        }
+                    }
+                }
+                let ok = match rt::below(6) {
+                    0 => desert::deserialize::<[u32; 3]>(&bytes).map(|x| x.iter().sum::<u32>() as usize).is_ok(),
+                    1 => desert::deserialize::<[String; 2]>(&bytes).map(|x| x[0].len() + x[1].len()).is_ok(),
+                    2 => desert::deserialize::<[u8; 4]>(&bytes).map(|x| x[0] as usize + x[3] as usize).is_ok(),
+                    3 => desert::deserialize::<Vec<u8>>(&bytes).map(|x| x.len()).is_ok(),
+                    4 => desert::deserialize::<Vec<[u8; 2]>>(&bytes).map(|x| x.len()).is_ok(),
+                    _ => desert::deserialize::<(Vec<u16>, [Option<u8>; 3])>(&bytes).map(|x| x.0.len()).is_ok(),
+                };
+                outcomes[ok as usize] += 1;
+            }
+            println!("{{\"decodes\":{n},\"ok\":{},\"err\":{}}}", outcomes[1], outcomes[0]);
+        }
         Some("replay-hist") => {
             let golden = load_golden(&arg(&args, "--golden").unwrap());
             let plan: Vec<usize> = arg(&args, "--plan").unwrap().split(',').filter(|s| !s.is_empty()).map(|s| s.trim().parse().unwrap()).collect();
